@@ -336,15 +336,15 @@ func accessesOf(p *Prog, g *ssa.Global) []globalAccess {
 
 // c11Config: package-level variables that are deliberately unsynchronised configuration, one symbol each with its reason.
 var c11Config = map[string]string{
-	"internal/logger.LogLevel":          "log level switch: set by the user before mocking (OpenTrace/CloseTrace), read as a plain int; C19 proves it influences logging only",
-	"internal/logger.ConsoleLevel":      "debug switch: as LogLevel",
-	"internal/logger.Logger":            "log sink switch: as LogLevel",
-	"internal/logger.EnableLogTrack":    "log decoration switch set through SetLogTrack before use",
-	"internal/logger.trackGetter":       "log decoration callback set through SetLogTrack before use",
-	"internal/logger.ShowError2Console": "log switch",
-	"internal/unexports2.symTable":      "written only while symTable==nil && symTableLoadError==nil; every API path reaches it first through sync.Once (FindFuncByName/FindVarByName), which publishes it before any concurrent reader",
+	"internal/logger.LogLevel":              "log level switch: set by the user before mocking (OpenTrace/CloseTrace), read as a plain int; C19 proves it influences logging only",
+	"internal/logger.ConsoleLevel":          "debug switch: as LogLevel",
+	"internal/logger.Logger":                "log sink switch: as LogLevel",
+	"internal/logger.EnableLogTrack":        "log decoration switch set through SetLogTrack before use",
+	"internal/logger.trackGetter":           "log decoration callback set through SetLogTrack before use",
+	"internal/logger.ShowError2Console":     "log switch",
+	"internal/unexports2.symTable":          "written only while symTable==nil && symTableLoadError==nil; every API path reaches it first through sync.Once (FindFuncByName/FindVarByName), which publishes it before any concurrent reader",
 	"internal/unexports2.symTableLoadError": "as symTable",
-	"internal/arch/x86asm.trace":        "decoder debug switch, never set by goom",
+	"internal/arch/x86asm.trace":            "decoder debug switch, never set by goom",
 }
 
 func c11(c *Ctx) {
@@ -361,8 +361,9 @@ func c11(c *Ctx) {
 	{
 		sub := NewReport("C05", c.Tier)
 		sub.SetConfig("linux/amd64")
-		sc := &Ctx{Repo: c.Repo, Verif: c.Verif, Tier: c.Tier, R: sub, k1: c.k1, k2: c.k2, k2err: c.k2err, isNorm: c.isNorm}
+		sc := &Ctx{Repo: c.Repo, Verif: c.Verif, Tier: c.Tier, R: sub, k1: c.k1, k2: c.k2, k2err: c.k2err, isNorm: c.isNorm, importing: true}
 		c05(sc)
+		r.verifDir = c.Verif
 		r.Import(sub, "C11.R6", func(rule string) bool { return rule == "C05.R1" || rule == "C05.R2" || rule == "C05.R3" })
 	}
 	defer func() {
